@@ -31,6 +31,7 @@ fn keep(f: &Filter, e: &EntryView) -> bool {
 pub struct Expected {
     pub items: Vec<EntryView>,
     pub loop_possible: bool,
+    pub dangling: bool,
     pub window: (usize, usize),
 }
 
@@ -72,6 +73,7 @@ pub fn expected(m: &Model, root: &str, o: &EntOpts) -> Option<Expected> {
     let r = if o.follow { Model::followed(&r0) } else { r0 };
     let mut out = vec![];
     let mut loop_possible = false;
+    let mut dangling = false;
     // explicit stack: (entry, depth, chain of directory paths being iterated)
     let mut stack: Vec<(EntryView, usize, Vec<String>)> = vec![(r, 0, vec![])];
     let mut guard = 0;
@@ -84,6 +86,9 @@ pub fn expected(m: &Model, root: &str, o: &EntOpts) -> Option<Expected> {
         if e.dir && (!e.link || o.follow) {
             if e.link && chain.contains(&e.path) {
                 loop_possible = true;
+            } else if e.link && m.k(&e.path) == K::Missing {
+                // a followed link whose directory target is gone: an error item is tolerated
+                dangling = true;
             } else if depth < max {
                 let mut ch = chain.clone();
                 ch.push(e.path.clone());
@@ -111,7 +116,7 @@ pub fn expected(m: &Model, root: &str, o: &EntOpts) -> Option<Expected> {
             out.push(e);
         }
     }
-    Some(Expected { items: out, loop_possible, window: (min, max) })
+    Some(Expected { items: out, loop_possible, dangling, window: (min, max) })
 }
 
 fn location(e: &EntryView) -> &str {
@@ -152,6 +157,16 @@ pub fn check(m: &Model, praw: &str, o: &EntOpts, items: &[Result<EntryView, Stri
             return Err(("loop-not-reported".into(), "followed link cycle but no LinkLooping error".into()));
         }
         return Ok(());
+    }
+    if exp.dangling {
+        // following a dangling link to a directory: either it is passed over or the traversal
+        // stops with DoesNotExist; items yielded before must still be legitimate
+        if errs.iter().any(|k| *k != "Path::DoesNotExist") || (!errs.is_empty() && items.last().map(|x| x.is_ok()).unwrap_or(false)) {
+            return Err(("dangling-wrong-error".into(), format!("errors yielded: {:?}", errs)));
+        }
+        if !errs.is_empty() {
+            return Ok(());
+        }
     }
     if !errs.is_empty() {
         return Err(("unexpected-error".into(), format!("errors yielded: {:?}", errs)));
@@ -197,8 +212,13 @@ pub fn check(m: &Model, praw: &str, o: &EntOpts, items: &[Result<EntryView, Stri
     if !unique {
         return Ok(());
     }
-    // parents before contents (after with contents_first)
+    // parents before contents (after with contents_first); a followed link carries its target's
+    // path, so with followed links among the items "the entry at the parent path" is ambiguous
+    let followed_present = oks.iter().any(|e| e.link && e.following);
     for (i, e) in oks.iter().enumerate() {
+        if followed_present {
+            break;
+        }
         if let Some(par) = parent(location(e)) {
             if let Some(pi) = pos.get(par.as_str()) {
                 let pi = pi[0];
